@@ -4,7 +4,7 @@
 // Files: c08_test.go   the case format, the generic executor/oracle (runT), C08.enum and C08.rand
 //
 //	types_test.go    element types with special characteristics, C08.types, huge zero-size grids (C08.huge)
-//	big_test.go      C08.big: grids and rectangles around every power of two up to 2^17 (2^21) cells
+//	big_test.go      C08.big: grids and rectangles around every power of two up to 2^17 (2^20) cells
 //	extreme_test.go  C08.extreme: coordinates at the top/bottom of the int range, overflowing flat indices
 package c08
 
